@@ -18,6 +18,10 @@ CLAIMED = {
          "Exploration: for generated lexicons/matrices (negative and extreme costs, homographs, overlaps, user dictionaries, inhibited pairs, all OOV stacks) the returned mode-C path must cost exactly the reference optimum, every lattice node's stored cumulative cost must equal the reference shortest distance, and every morpheme's total_cost must equal the prefix sum recomputed from the CSV parameters and matrix text. No absence claim.",
          "Trusts the hook accessors (read-only copies of lattice fields) and the model matrix/CSV renderer. Candidate generation itself is judged by C04/C13; i32 overflow (F7) is outside the generated domain (texts <= 200 characters).",
          "DESIGN.md section 4, C02"),
+ "C06": ("property-based testing (proptest): structured mutation of valid sources from a fault catalogue + exhaustive sink-failure offsets; validity predicate evaluated through the public loader",
+         "Exploration + fault enumeration: valid generated (matrix, system CSV, user CSV) receive 0-3 catalogue edits; every builder stage must return Ok/Err without panicking, and every accepted dictionary is judged valid (ids inside the matrix in the dimension they index, references resolve, loads, analyses its own words in all modes with all accessors and the partition predicate); small dictionaries are compiled into a sink failing (or short-writing) at EVERY byte offset and the result must be Err. No absence claim.",
+         "Known finding F15 (split units that do not concatenate to the key) is excluded from the analysis step by a predicate on the loaded dictionary and pinned by a reproducer. Byte-level fuzzing of the same oracle is the cargo-fuzz target dic_compile (thorough tier only).",
+         "DESIGN.md section 4, C06"),
  "C07": ("property-based testing (proptest): reference normaliser / collapser / yomigana remover written from the statement; metamorphic context-independence relation; stride/complete sweep over all Unicode scalar values",
          "Exploration: plugin output through the public trait is compared with an independent reference for generated rewrite tables (prefix keys, exempt characters) and texts that exercise both the optimised and the general path; norm(x|y) = norm(x)|norm(y) is checked model-free; prolonged-sound-mark and yomigana settings are generated likewise; every scalar value alone with the shipped table (quick: every 16th, thorough: all 1,112,064). No absence claim.",
          "Trusts the unicode-normalization crate, Rust's to_lowercase/is_uppercase and the reference implementations in harness/src/model/norm.rs. Title-case letters: both readings accepted.",
